@@ -353,7 +353,7 @@ def record_repo_tests(scratch: Path, files):
     env = dict(os.environ, VERIF_HARNESS=str(VERIF / "harness"), VERIF_TRACE_OUT=str(out), PYTHONPATH=f"{scratch}:{os.environ.get('PYTHONPATH', '')}")
     p = subprocess.run(
         [sys.executable, "-m", "pytest", "-q", "-x", "-p", "no:cacheprovider", "-p", "verif_c13_plugin", *files],
-        cwd="/repo", env=env, capture_output=True, text=True, timeout=1500,
+        cwd=os.environ.get("VERIF_REPO", "/repo"), env=env, capture_output=True, text=True, timeout=1500,
     )
     if not out.exists():
         raise RuntimeError("tracer produced no output:\n" + p.stdout[-2000:] + p.stderr[-2000:])
